@@ -27,3 +27,11 @@ impl Base64 {
             },
     { unimplemented!() }
 }
+
+/// `&String` used where a `&str` is expected (deref coercion, specified by vstd on the character views): both byte views are the
+/// UTF-8 encoding of the same characters
+pub uninterp spec fn utf8_of(c: Seq<char>) -> Seq<u8>;
+#[verifier::external_body]
+pub broadcast proof fn axiom_strb_utf8(s: &str) ensures #[trigger] strb(s) == utf8_of(s@) {}
+#[verifier::external_body]
+pub broadcast proof fn axiom_sbytes_utf8(s: String) ensures #[trigger] sbytes(s) == utf8_of(s@) {}
